@@ -267,6 +267,89 @@ theorem refused_iff_full (cfg : Cfg) (kinds : List Bool) (es : List Event) (r : 
   by_cases hf : fanned x m = true <;> by_cases hq : x.queue.length < cfg.cap <;> cases hst : x.status <;>
     simp [outcome, hf, hst, hq] <;> omega
 
+/-! ## second direction: recording client → server session → stream → readers
+
+Hop 1 is the same pipeline with the publisher's write queue and one "reader" (the server session, index
+0); hop 2's writes are, one for one and in order, the callbacks of hop 1 (the session's `OnPacketRTP`
+handler calls `ServerStream.WritePacketRTP` with the packet it was given). -/
+
+theorem rewrite_rewrite (a b : Nat) (p : Pkt) : rewrite a (rewrite b p) = rewrite a p := rfl
+
+/-- **relay_end_to_end.**  Every callback of a reader of the stream is a packet the *publisher* wrote: to
+that media, with that payload type, payload / marker / timestamp / sequence number identical, SSRC := the
+stream's SSRC for the format.  Moreover (`relay_order`) when both hops are reliable transports the
+callbacks come in the publisher's write order, at most once. -/
+theorem relay_end_to_end (cfg1 cfg2 : Cfg) (kinds1 kinds2 : List Bool) (es1 es2 : List Event) (r2 : Nat)
+    (h1 : 0 < kinds1.length) (h2 : r2 < kinds2.length)
+    (hrelay : writesOf es2 = (reader cfg1 kinds1 es1 0).cbs.map (fun d => (d.media, d.pkt))) :
+    ∀ d2 ∈ (reader cfg2 kinds2 es2 r2).cbs, ∃ d1 p0 s2,
+      (reader cfg1 kinds1 es1 0).cbs[d2.wid]? = some d1 ∧
+      (writesOf es1)[d1.wid]? = some (d2.media, p0) ∧
+      d2.pt = p0.pt ∧ cfg2.ssrcOf d2.media p0.pt = some s2 ∧ d2.pkt = rewrite s2 p0 := by
+  intro d2 hd2
+  obtain ⟨⟨p, s2, hw2, hpt2, hs2, hp2⟩, _⟩ := no_cross_media cfg2 kinds2 es2 r2 h2 d2 hd2
+  rw [hrelay, List.getElem?_map] at hw2
+  cases hc : (reader cfg1 kinds1 es1 0).cbs[d2.wid]? with
+  | none => rw [hc] at hw2; cases hw2
+  | some d1 =>
+    rw [hc] at hw2
+    simp only [Option.map_some, Option.some.injEq, Prod.mk.injEq] at hw2
+    obtain ⟨hm, hp⟩ := hw2
+    obtain ⟨⟨p0, s1, hw1, hpt1, _, hp1⟩, _⟩ :=
+      no_cross_media cfg1 kinds1 es1 0 h1 d1 (List.mem_of_getElem? hc)
+    refine ⟨d1, p0, s2, rfl, ?_, ?_, ?_, ?_⟩
+    · rw [hw1, hm]
+    · rw [hpt2, ← hp, hp1]; rfl
+    · have : p.pt = p0.pt := by rw [← hp, hp1]; rfl
+      rw [← this]; exact hs2
+    · rw [hp2, ← hp, hp1, rewrite_rewrite]
+
+theorem relay_order (cfg1 cfg2 : Cfg) (kinds1 kinds2 : List Bool) (es1 es2 : List Event) (r2 : Nat)
+    (h1 : 0 < kinds1.length) (h2 : r2 < kinds2.length)
+    (ht1 : kinds1[0] = false) (ht2 : kinds2[r2] = false) :
+    -- publisher write indices of the reader's callbacks, through hop 1's callback list
+    ((reader cfg2 kinds2 es2 r2).cbs.filterMap
+        (fun d2 => ((reader cfg1 kinds1 es1 0).cbs[d2.wid]?).map (·.wid))).Pairwise (fun (a b : Nat) => a < b) := by
+  have ho1 := delivered_in_write_order_at_most_once cfg1 kinds1 es1 0 h1 ht1
+  have ho2 := delivered_in_write_order_at_most_once cfg2 kinds2 es2 r2 h2 ht2
+  generalize (reader cfg1 kinds1 es1 0).cbs = c1 at ho1
+  generalize (reader cfg2 kinds2 es2 r2).cbs = c2 at ho2
+  -- positions increase (hop 2), and along increasing positions the wids of hop 1 increase
+  have hmono : ∀ (i j : Nat) (a b : Deliv), i < j → c1[i]? = some a → c1[j]? = some b → a.wid < b.wid := by
+    intro i j a b hij ha hb
+    have hi : i < c1.length := by
+      rcases Nat.lt_or_ge i c1.length with h | h
+      · exact h
+      · rw [List.getElem?_eq_none h] at ha; cases ha
+    have hj : j < c1.length := by
+      rcases Nat.lt_or_ge j c1.length with h | h
+      · exact h
+      · rw [List.getElem?_eq_none h] at hb; cases hb
+    rw [List.getElem?_eq_getElem hi] at ha
+    rw [List.getElem?_eq_getElem hj] at hb
+    cases ha; cases hb
+    exact List.pairwise_iff_getElem.mp ho1 i j hi hj hij
+  induction c2 with
+  | nil => simp
+  | cons d t ih =>
+    rw [List.pairwise_cons] at ho2
+    simp only [List.filterMap_cons]
+    cases hd : c1[d.wid]? with
+    | none => simpa [hd] using ih ho2.2
+    | some a =>
+      simp only [Option.map_some]
+      rw [List.pairwise_cons]
+      refine ⟨?_, ih ho2.2⟩
+      intro w hw
+      obtain ⟨d', hd', hw'⟩ := List.mem_filterMap.mp hw
+      cases hb : c1[d'.wid]? with
+      | none => rw [hb] at hw'; cases hw'
+      | some b =>
+        rw [hb] at hw'
+        simp only [Option.map_some, Option.some.injEq] at hw'
+        rw [← hw']
+        exact hmono d.wid d'.wid a b (ho2.1 d' hd') hd hb
+
 /-! ## non-vacuity: concrete histories (tests by evaluation, not theorems about all inputs) -/
 
 /-- two medias (formats 96/97 and 98), queue capacity 2 -/
@@ -300,9 +383,9 @@ example : (∀ e ∈ view 0 (exEvents.take 11 ++ [.ctl 0 .carry, .ctl 0 .consume
 /-- reader 1 (UDP) of the same stream: datagram 1 (seq 31) overtakes datagram 0 (seq 30), which then
 arrives twice: the receiver delivers seq 31 at once (first packet), drops the late 30 twice -/
 def exUdp : List Event :=
-  [.ctl 1 (.setup 0), .ctl 1 .play, .write 0 (exPkt 97 30), .write 0 (exPkt 97 31), .write 0 (exPkt 97 32),
-   .ctl 1 .consume, .ctl 1 .consume, .ctl 1 .consume,
-   .ctl 1 (.arrive 1), .ctl 1 (.arrive 0), .ctl 1 (.arrive 0), .ctl 1 (.arrive 2)]
+  [.ctl 1 (.setup 0), .ctl 1 .play, .write 0 (exPkt 97 30), .write 0 (exPkt 97 31),
+   .ctl 1 .consume, .ctl 1 .consume, .ctl 1 (.arrive 1), .ctl 1 (.arrive 0), .ctl 1 (.arrive 0),
+   .write 0 (exPkt 97 32), .ctl 1 .consume, .ctl 1 (.arrive 2)]
 
 example : (reader exCfg [false, true] exUdp 1).cbs.map (fun d => (d.media, d.pt, d.wid, d.pkt.seq)) =
     [(0, 97, 1, 31), (0, 97, 2, 32)] := by decide
